@@ -329,20 +329,17 @@ def judge(ctx, binary, case, res, recs, hw, why):
     case from a clean start (fresh process) before it counts."""
     tries = 1 if not res.get("returned") else 12
     bad = None
-    for t in range(tries):
-        results, crash, _ = run_proc(ctx, binary, [dict(case, id=1)], case.get("_gmp", 2), False, "reexec%d" % t)
-        r2 = results.get(1)
-        if crash or r2 is None:
-            bad = {"crash": crash}
-            break
-        recs2 = to_records(case, r2)
-        acc = set()
-        if r2.get("returned") and recs2:
-            acc, _ = validate(ctx, {1: recs2}, label="reexec")
-        if not r2.get("returned") or r2.get("store_diff") or 1 not in acc:
-            bad = {"returned": r2.get("returned"), "store_diff": r2.get("store_diff"), "trace": brief(recs2) if recs2 else None,
-                   "goroutines": r2.get("goroutines")}
-            break
+    results, crash, _ = run_proc(ctx, binary, [dict(case, id=i) for i in range(1, tries + 1)], case.get("_gmp", 2), False, "reexec")
+    if crash or len(results) < tries:
+        bad = {"crash": crash, "results": len(results)}
+    else:
+        t2 = {i: to_records(case, r) for i, r in results.items() if r.get("returned")}
+        acc2, _ = validate(ctx, {i: t for i, t in t2.items() if t}, label="reexec")
+        for i, r2 in sorted(results.items()):
+            if not r2.get("returned") or r2.get("store_diff") or i not in acc2:
+                bad = {"returned": r2.get("returned"), "store_diff": r2.get("store_diff"),
+                       "trace": brief(t2[i]) if t2.get(i) else None, "goroutines": r2.get("goroutines")}
+                break
     if bad is None:
         raise vlib.InfraError("a run was rejected (%s) but %d re-executions of its case were all fine; case=%s trace=%s" % (
             why, tries, json.dumps(case), json.dumps(brief(recs) if recs else None)))
@@ -469,16 +466,14 @@ def replay(ctx, path):
     case = blob.get("case")
     if case is None:
         raise vlib.InfraError("replay file without a case")
-    for t in range(12):
-        results, crash, _ = run_proc(ctx, binary, [dict(case, id=1)], case.get("_gmp", 2), False, "replay%d" % t)
-        r = results.get(1)
-        if crash or r is None:
-            ctx.violation(blob, "replayed case crashed")
-            return
-        recs = to_records(case, r)
-        acc = set()
-        if r.get("returned") and recs:
-            acc, _ = validate(ctx, {1: recs}, label="replay")
-        if not r.get("returned") or r.get("store_diff") or 1 not in acc:
-            ctx.violation(blob, "replayed case fails again")
+    results, crash, _ = run_proc(ctx, binary, [dict(case, id=i) for i in range(1, 13)], case.get("_gmp", 2), False, "replay")
+    if crash or len(results) < 12:
+        ctx.violation(blob, "replayed case crashed or did not return")
+        return
+    traces = {i: to_records(case, r) for i, r in results.items() if r.get("returned")}
+    acc, _ = validate(ctx, {i: t for i, t in traces.items() if t}, label="replay")
+    for i, r in sorted(results.items()):
+        if not r.get("returned") or r.get("store_diff") or i not in acc:
+            ctx.violation(blob, "replayed case fails again (run %d of 12: returned=%s store_diff=%s accepted=%s)" % (
+                i, r.get("returned"), r.get("store_diff"), i in acc))
             return
